@@ -30,6 +30,8 @@ Definition auth_eqb (a b : auth) : bool :=
   | ANone, ANone => true
   | AApiKey i n v, AApiKey i' n' v' => String.eqb i i' && String.eqb n n' && String.eqb v v'
   | ABasic u p, ABasic u' p' => String.eqb u u' && String.eqb p p'
+  | AClientCred u i x sc, AClientCred u' i' x' sc' =>
+    String.eqb u u' && String.eqb i i' && String.eqb x x' && list_eqb String.eqb sc sc'
   | _, _ => false
   end.
 
@@ -55,6 +57,7 @@ Definition inst_eqb (a b : inst) : bool :=
   strs_eqb (i_fwdh a) (i_fwdh b) && strs_eqb (i_fwdc a) (i_fwdc b) && strs_eqb (i_up a) (i_up b) &&
   option_eqb tpl_eqb (i_payload a) (i_payload b) && list_eqb kt_eqb (i_values a) (i_values b) &&
   option_eqb Z.eqb (i_ttl a) (i_ttl b) && strs_eqb (i_scopes a) (i_scopes b) &&
+  strs_eqb (i_aud a) (i_aud b) && Bool.eqb (i_session a) (i_session b) &&
   list_eqb expr_eqb (i_exprs a) (i_exprs b).
 
 Definition reqdata_eqb (a b : reqdata) : bool :=
@@ -96,6 +99,18 @@ Fixpoint len_diffs (a b : list fld) : nat :=
 Definition guard_shift (a b : list fld) : bool :=
   negb (same_shape a b) || Nat.leb 2 (len_diffs a b).
 
+(** C11-F4, exactly: two different sequences of writes that give the same
+    pre-image (the defect itself; [guard_shift] is a structural necessary condition for it) *)
+Definition fld_eqb (a b : fld) : bool :=
+  match a, b with
+  | FV x, FV y | FX x, FX y => String.eqb x y
+  | _, _ => false
+  end.
+
+Definition flds_eqb : list fld -> list fld -> bool := list_eqb fld_eqb.
+
+Definition collide (a b : list fld) : bool := String.eqb (cat a) (cat b) && negb (flds_eqb a b).
+
 (* ------------------------------------------------------------------ guards of the findings *)
 
 (** the key of this instance does not depend on map iteration order *)
@@ -130,13 +145,22 @@ Definition both (p : step -> bool) (a b : step) : bool := p a && p b.
 
 Definition is_kind (k : kind) (s : step) : bool := kind_eqb (i_kind (st_inst s)) k && enabled (st_inst s).
 
-(** C11-F2: the same token at two introspection instances of one endpoint whose scope assertions differ *)
+(** C11-F2: the same token at two introspection instances of one endpoint whose scope or audience assertions differ *)
 Definition p_F2 (a b : step) : bool :=
   both (is_kind KIntro) a b && String.eqb (q_cred (st_req a)) (q_cred (st_req b)) &&
   ep_eqb (eff_ep (st_inst a)) (eff_ep (st_inst b)) &&
-  negb (strs_eqb (i_scopes (st_inst a)) (i_scopes (st_inst b))).
+  negb (strs_eqb (i_scopes (st_inst a)) (i_scopes (st_inst b)) && strs_eqb (i_aud (st_inst a)) (i_aud (st_inst b))).
 
 Definition g_F2 (steps : list step) : bool := exists_pair p_F2 steps.
+
+(** C11-F10: the same session value at two generic authenticators on one endpoint of which only one
+    asserts the session lifespan (the key has no mechanism id, a hit returns before the assertion) *)
+Definition p_F10 (a b : step) : bool :=
+  both (is_kind KGen) a b && String.eqb (q_cred (st_req a)) (q_cred (st_req b)) &&
+  ep_eqb (eff_ep (st_inst a)) (eff_ep (st_inst b)) &&
+  negb (Bool.eqb (i_session (st_inst a)) (i_session (st_inst b))).
+
+Definition g_F10 (steps : list step) : bool := exists_pair p_F10 steps.
 
 Definition rendered_eqb (a b : option (alist * string)) : bool :=
   match a, b with
@@ -163,16 +187,21 @@ Definition auth_pre (a : auth) : list fld :=
   | ANone => []
   | AApiKey i n v => [FV i; FV n; FV v]
   | ABasic u p => [FV u; FV p]
+  | AClientCred url id secret scopes => [FV id; FV secret; FV url] ++ map FV scopes
   end.
 
+(** two different strategies (or one strategy with different settings) whose hashes have the same pre-image *)
+Definition auth_collide (a b : auth) : bool :=
+  String.eqb (cat (auth_pre a)) (cat (auth_pre b)) && negb (auth_eqb a b).
+
 (** C11-F4: two look-ups whose pre-images (of the key or, for different endpoints, of the
-    endpoint hash or of the authentication strategy's hash) may be shifted against each other *)
+    endpoint hash or of the authentication strategy's hash) are equal although their writes differ *)
 Definition p_F4 (fx : fixes) (H : string -> string) (a b : step) : bool :=
   both (fun s => enabled (st_inst s)) a b &&
-  (guard_shift (opt_fields fx H a) (opt_fields fx H b) ||
+  (collide (opt_fields fx H a) (opt_fields fx H b) ||
    (negb (ep_eqb (eff_ep (st_inst a)) (eff_ep (st_inst b))) &&
-    (guard_shift (ep_fields fx H (st_ho a) (eff_ep (st_inst a))) (ep_fields fx H (st_ho b) (eff_ep (st_inst b))) ||
-     guard_shift (auth_pre (e_auth (eff_ep (st_inst a)))) (auth_pre (e_auth (eff_ep (st_inst b))))))).
+    (collide (ep_fields fx H (st_ho a) (eff_ep (st_inst a))) (ep_fields fx H (st_ho b) (eff_ep (st_inst b))) ||
+     auth_collide (e_auth (eff_ep (st_inst a))) (e_auth (eff_ep (st_inst b)))))).
 
 Definition g_F4 (fx : fixes) (H : string -> string) (steps : list step) : bool := exists_pair (p_F4 fx H) steps.
 
